@@ -211,6 +211,44 @@ def run(ctx):
         clos = [c for c in f.region() if c is not f]
         ok = len(clos) == 1
         why = "expected one per-character closure"
+        if not clos:
+            # the same decision written as `first character, then a loop over the rest`: the start predicate is applied once,
+            # to the first next() taken before the loop, the other one inside the loop; a character is pushed only where its
+            # predicate accepted it, '_' otherwise, and every character leads to exactly one push
+            from facts import PredFlow
+
+            b = f.body
+            sy = Sym(f)
+            pcs = {callee_method_name(c): c for c in b.calls() if callee_method_name(c).startswith("valid_")}
+            pushes_ = [c for c in nonforeign_calls(f) if c.fn is f and c.is_("String::push")]
+            ok = set(pcs) == {start_p, rest_p} and bool(pushes_)
+            why = f"{fn_name} consults {sorted(pcs)}"
+            if ok:
+                ok = not in_cycle(b, pcs[start_p].bb) and in_cycle(b, pcs[rest_p].bb) and "next" in sym_str(arg_syms(pcs[start_p])[0]) and "next" in sym_str(arg_syms(pcs[rest_p])[0])
+                why = "the start predicate is not applied to the first character only / the other one not to the rest"
+            if ok:
+                fl = PredFlow(f, lambda subj, v: None, lambda x: ("P", "N") if sym_is_call(x, start_p, rest_p) else None)
+                from facts import alternatives
+
+                for c in pushes_:
+                    # `push(if ok { c } else { '_' })`: each value the argument can take, where it is chosen
+                    al_ = (c.args[1].get("copy") or c.args[1].get("move") or {}).get("l")
+                    ds_ = [d for d in b.defs().get(al_, []) if d[0] == "assign"] if al_ is not None and not (c.args[1].get("copy") or c.args[1].get("move") or {}).get("pr") else []
+                    sites = [(d[1], sy.rvalue(d[3]["rv"], 0, frozenset())) for d in ds_] if len(ds_) > 1 else [(x[0], x[1]) for x in alternatives(f, c.args[1], c.bb, sy)]
+                    for bb_a, alt in sites:
+                        v = strip_sym(alt)
+                        if const_char(v) == "_":
+                            continue
+                        if "next" not in sym_str(v) or fl.at(bb_a) != "P":
+                            ok, why = False, "a character is pushed on a path where its predicate did not accept it"
+                pb = {c.bb for c in pushes_}
+                heads_ = [c.bb for c in nonforeign_calls(f) if c.fn is f and c.is_("Iterator::next") and in_cycle(b, c.bb)]
+                for pc_ in (pcs[start_p], pcs[rest_p]):
+                    tgt_ = pc_.t.get("target")
+                    if tgt_ is None or any(h in b.reachable(tgt_, cut=pb) for h in heads_) or any(r in b.reachable(tgt_, cut=pb) for r in b.return_blocks()):
+                        ok, why = False, "a character can be consumed without anything being pushed for it"
+            chk.ob("C08.b", f.path, ok, f"first character: c if {start_p}(c) else '_'; every later one: c if {rest_p}(c) else '_'" if ok else why, f.loc())
+            continue
         if ok:
             cf = clos[0]
             b = cf.body
